@@ -40,12 +40,19 @@ theorem generic (order : List Step)
   · exact (url_value_after r f u hwf hb _).1
   · exact (url_value_after r f u hwf hb _).2
 
-/-- the order the emitted middleware has NOW (regenerated from the emitted text). -/
-theorem order_today : relevant currentOrder = [.path, .query, .body] := by decide
+/-- the order the emitted middleware has NOW (regenerated from the emitted text): since the
+repair `fix: go-http: bind the request body before path and query parameters` the body step
+precedes both URL binders. -/
+theorem order_today : relevant currentOrder = [.body, .path, .query] := by decide
 
-/-- **¬ Holds today** (known finding C02 `body_resets_url_fields`): POST /users/xyz with body
-`{"note": …}`: the body decode resets the message after the URL binders ran. -/
-theorem not_full : ¬ Holds Nat currentOrder := by
+/-- **C02, full**: with the regenerated order, a URL-bound field reaches the handler with the
+URL's value for every verb and every body (`generic` applied to today's order). -/
+theorem full : Holds V currentOrder := generic currentOrder (Or.inl order_today)
+
+/-- what the regression looked like (the order before the repair; entry `body_resets_url_fields`,
+fixed): POST /users/xyz with body `{"note": …}` — the body decode reset the message after the URL
+binders had run. A return to that order makes `order_today` fail. -/
+theorem body_last_does_not_hold : ¬ Holds Nat [.headers, .path, .query, .body, .validate] := by
   intro h
   have := h { bodyVerb := true, pathVals := [("user_id".toList, 7)], queryVals := [], body := some [("note".toList, 1)] }
     "user_id".toList 7 (by refine ⟨?_, ?_, ?_⟩ <;> simp) (Or.inl (by simp)) (by intro fs hfs; simp at hfs; subst hfs; decide)
